@@ -72,7 +72,21 @@ static void compareConverted(const ConvSnap& b, const ConvSnap& a, Ctx& ctx, con
 			if (std::fabs(a.s.uvs[i].u - b.s.uvs[i].u) > halfTol(b.s.uvs[i].u) || std::fabs(a.s.uvs[i].v - b.s.uvs[i].v) > halfTol(b.s.uvs[i].v))
 				fail("conv:uv-value", "UV of vertex " + std::to_string(i) + " is (" + std::to_string(a.s.uvs[i].u) + "," + std::to_string(a.s.uvs[i].v) + "), before (" + std::to_string(b.s.uvs[i].u) + "," + std::to_string(b.s.uvs[i].v) + ")");
 	}
-	bool colorsRemoved = std::find(res.shapesVColorsRemoved.begin(), res.shapesVColorsRemoved.end(), b.s.name) != res.shapesVColorsRemoved.end();
+	// the result lists shapes by the name they have after the conversion (sibling duplicates are renamed first; shapes under
+	// different parents may still share a name, so the list alone does not identify a shape)
+	bool listed = std::find(res.shapesVColorsRemoved.begin(), res.shapesVColorsRemoved.end(), a.s.name) != res.shapesVColorsRemoved.end();
+	bool colorsRemoved = b.s.hasC && !a.s.hasC && listed;
+	if (colorsRemoved) {
+		// documented: the colour channel is dropped only if every colour is opaque white (0xFFFFFFFF)
+		ctx.probe("conversion_removed_vertex_colours");
+		for (size_t i = 0; i < b.s.colors.size(); i++) {
+			auto& y = b.s.colors[i];
+			if (y.r != 1.0f || y.g != 1.0f || y.b != 1.0f || y.a != 1.0f) {
+				fail("conv:colours-dropped", "the conversion removed the vertex colours although vertex " + std::to_string(i) + " is (" + std::to_string(y.r) + "," + std::to_string(y.g) + "," + std::to_string(y.b) + "," + std::to_string(y.a) + "), not opaque white");
+				break;
+			}
+		}
+	}
 	if (b.s.hasC && !colorsRemoved) {
 		if (a.s.colors.size() != b.s.colors.size()) fail("conv:colour-count", "vertex colours " + std::to_string(a.s.colors.size()) + " vs " + std::to_string(b.s.colors.size()));
 		const float tol = 1.0f / 255.0f + 1.0f / 256.0f;
